@@ -81,6 +81,13 @@ class C16(Spec):
                     base = _cal.timegm((y, mth, dd, 0, 0, 0))
                     secs.update((base, base + 86399))
         cases.extend("DT %d" % x for x in sorted(secs))
+        # the same instants as other implementations send them (RFC 7231 IMF-fixdate): read by the header and by the request parser
+        import time as _time
+        def imf(x):
+            return _time.strftime("%a, %d %b %Y %H:%M:%S GMT", _time.gmtime(x)).encode()
+        for x in sorted(secs) + [rng.randint(lo, hi) for _ in range(200 if tier == "quick" else 5000)]:
+            cases.append("T %s %s" % (pv.hexs("Date"), pv.hexs(imf(x))))
+            cases.append("TM %s %s" % (pv.hexs("Date"), pv.hexs(imf(x))))
         for _ in range(600 if tier == "quick" else 20000):
             cases.append("DT %d" % rng.randint(lo, hi))
         texts = {
